@@ -29,6 +29,7 @@ import time
 
 import yvlib
 from yvlib import hx, log
+from . import C14_r9 as R9
 
 LEVEL = "proof"
 TRUSTED = [
@@ -1557,6 +1558,28 @@ def check_name_text(ch, names):
     return len(cases), good
 
 
+def check_round9(ch, quick, history_only=None, kind_only=None):
+    """round 9 (tools/props/C14_r9.py): the HISTORY family (one import event repeated N times in one run, then probes) and the
+    VALUE-KIND family (every kind of value in the importer's globals); text cases, oracle by construction.  The release build runs
+    all of them (the debug build is ~200x slower on them), the debug build (overflow checks, debug assertions) a small sample."""
+    ctx = ch.ctx
+    fm = frames_max()
+    rel = ctx.harness("release")
+    n = 0
+    t0 = time.time()
+    if kind_only is None:
+        n += R9.check_history(ctx, rel, ctx.rng, quick, fm, only=history_only)
+    if history_only is None:
+        n += R9.check_kinds(ctx, rel, only=kind_only)
+    if history_only is None and kind_only is None:
+        small = [R9.history_case(k, m, "host" if k in R9.HOST_ONLY else "main", "top") for k in R9.KINDS for m in (2, fm, fm + 1)]
+        small += [R9.chain_case(d, fm) for d in (fm - 2, fm - 1, fm)]
+        n += R9.check_cases(ctx, ch.binary, small, "a HISTORY of import events, then probes (debug build)", "history_case")
+        n += R9.check_kinds(ctx, ch.binary, only="kinds/main/top")
+    log("[C14] round-9 families: %d cases in %.1fs" % (n, time.time() - t0))
+    return n
+
+
 def all_edge_sets(nmods=4):
     pairs = [(a, b) for a in range(nmods) for b in range(1, nmods)]
     for mask in range(1 << len(pairs)):
@@ -1572,6 +1595,10 @@ def run(ctx):
             ch.check([detuple(ctx.replay_only["prog"])], "replay", "replay")
         elif "tag_case" in ctx.replay_only:
             check_tag_programs(ch, 1, only=ctx.replay_only["tag_case"])
+        elif "history_case" in ctx.replay_only:
+            check_round9(ch, quick, history_only=ctx.replay_only["history_case"])
+        elif "kind_case" in ctx.replay_only:
+            check_round9(ch, quick, kind_only=ctx.replay_only["kind_case"])
         elif "limit_case" in ctx.replay_only:
             check_frame_limit_family(ch, frames_max(), ctx.replay_only["limit_case"])
         elif "name_family" in ctx.replay_only:
@@ -1588,6 +1615,7 @@ def run(ctx):
     # 1. directed families first: corpus, probes, fibers, every start-up name inside imported modules
     ncorpus = check_corpus(ch)
     nprobe = check_probes(ch)
+    ch.nr9 = check_round9(ch, quick)
     fibs = fiber_programs()
     ch.check(fibs, "fibers", "imports through nested fibers (fixed regression family)")
     fib_models = ch.last_models
@@ -1689,7 +1717,8 @@ def finish(ctx, ch, quick, ncorpus, nprobe, nshapes, nrnd, fibs, nprogs, covered
         ctx.notes.append("finding %s reproduced on %d case(s); recorded in notes/C14-findings.json (%s), not yet an open class of known_findings.json"
                          % (cls, n, "present" if cls in findings else "MISSING"))
     ctx.cov.update({
-        "evaluations": ch.evals + ncorpus + nprobe + ntext + getattr(ch, "nfs", 0) + getattr(ch, "ntag", 0),
+        "evaluations": ch.evals + ncorpus + nprobe + ntext + getattr(ch, "nfs", 0) + getattr(ch, "ntag", 0) + getattr(ch, "nr9", 0),
+        "history_and_value_kind_cases": getattr(ch, "nr9", 0),
         "ownership_tag_programs": getattr(ch, "ntag", 0), "ownership_tag_lines_checked": getattr(ch, "tag_lines", 0),
         "escaped_function_programs": getattr(ch, "nesc", 0), "generator_fiber_programs": getattr(ch, "ngen", 0), "file_system_loader_cases": getattr(ch, "nfs", 0),
         "startup_names_covered": covered, "startup_names_uncovered": uncovered,
@@ -1718,6 +1747,14 @@ def finish(ctx, ch, quick, ncorpus, nprobe, nshapes, nrnd, fibs, nprogs, covered
                 "directory named like the module, over-long names, non-UTF-8 content, mode 000, a module importing a missing one, caught and "
                 "uncaught; tests/scripts/modules and ModLang programs (fibers, escape family, graph shapes with missing / uncompilable members) "
                 "served as files; "
+                "(ii-s) HISTORY family (yarel text, oracle by construction): one import event repeated N times in one run, N = 2 .. 300 + "
+                "random sizes - failing body (5 ways), missing, uncompilable, cached, N distinct modules, self-import, cycle through a second "
+                "module, a rotation of all - in the main script / a loading module's body x top-level loop / function / fiber per event / one "
+                "fiber / closure, then probes (fresh module runs once, same object, own globals, the failing module loads once enabled), "
+                "counters, bodies started and the loader-call sequence closed-form in N; import chains of depth 2 .. 130; (ii-k) VALUE-KIND "
+                "family: the importer's globals hold a value of every kind (natives, bound natives, classes, fiber, module, range, map, ...) "
+                "before the import; read / assigned inside the imported module and the module it imports (body and exported function), read as "
+                "attributes from outside, and the reverse direction: NameError / AttributeError every time; "
                 "(iii) tests/scripts/modules; non-trivial = the static import graph has a cycle or a diamond AND one global name is defined with "
                 "different values in two modules (distinct wire strings counted)",
         "samples": ch.samples,
